@@ -151,7 +151,7 @@ def main(tier, seed, replay=None):
     if not replay:
         for _ in range(1500 if tier == "quick" else 40000):
             vals.append(C.gen_value(rng, depth=rng.choice([0, 1, 2, 3]), width=3))
-        vals += list(C.INTS) + [C.bits_f(b) for b in C.FLOAT_BITS]
+        vals += list(C.INTS) + [C.bits_f(b) for b in C.FLOAT_BITS] + C.band_ints(rng, 3 if tier == "quick" else 15) + [10 ** 4000 + 12345]
     elif replay["example"].get("py"):
         vals.append(eval(replay["example"]["py"], {"nan": float("nan"), "inf": float("inf")}))
     if ok and vals:
